@@ -205,7 +205,7 @@ static void CodeIFB(Word Negate) {
         IfExpr = 1;
     } else {
         for (z = 1; z <= ArgCnt; z++) {
-            if (strlen(ArgStr[z++].str.p_str) > 0) {
+            if (strlen(ArgStr[z].str.p_str) > 0) {
                 Blank = False;
             }
         }
